@@ -70,7 +70,7 @@ pub fn n_runs(m: Mode, tier: &str) -> u64 {
     match m {
         Mode::C01 => if q { 3_000 } else { 200_000 },
         Mode::C02 => if q { 3_000 } else { 150_000 },
-        Mode::C05 => if q { 1_500 } else { 100_000 },
+        Mode::C05 => if q { 4_000 } else { 100_000 },
         Mode::C06 => if q { 3_000 } else { 150_000 },
     }
 }
@@ -94,6 +94,11 @@ pub fn gen(m: Mode, tier: &str, seed: u64, idx: u64, base: u64) -> Spec {
         Mode::C05 => wgen::Profile::Coinductive,
         Mode::C06 => wgen::Profile::Hyp,
     };
+    let profile = if m == Mode::C01 && rng.coin(22) {
+        wgen::Profile::Enum
+    } else if m == Mode::C05 && rng.coin(30) {
+        wgen::Profile::CycAuto
+    } else if (m == Mode::C05 && rng.coin(30)) || (m == Mode::C01 && rng.coin(15)) || (m == Mode::C02 && rng.coin(15)) { wgen::Profile::Cyc } else { profile };
     let world = if m == Mode::C01 && rng.coin(12) { fragment_corpus_world(&mut rng, base, idx).unwrap_or_else(|| wgen::gen_world(&mut rng, profile)) } else { wgen::gen_world(&mut rng, profile) };
     let ng = world.goals.len();
     let mut params = std::collections::BTreeMap::new();
